@@ -27,21 +27,25 @@ var GlobalValues map[string]r.Element
 
 // init function
 func init() {
+	globalValues = NewGlobalValues()
+	GlobalValues = globalValues
+}
 
-	//// predefined values - those variables (symbols) are defined before
-	//// any execution procedure.
-	//// NOTICE: those variables are all constants!
-	globalValues = map[string]r.Element{
-		"真":    ZnConstBoolTrue,
-		"假":    ZnConstBoolFalse,
-		"空":    ZnConstNull,
-		"异常":   ZnConstExceptionClass,
+// NewGlobalValues - build a fresh set of predefined values - those variables (symbols) are
+// defined before any execution procedure.
+// NOTICE: those variables are all constants! However some of the VALUES are mutable (the
+// constructor of 异常 can be redefined, 数值 has self-modifying methods), so every execution
+// gets its own copy: one execution must never see what another one did to them.
+func NewGlobalValues() map[string]r.Element {
+	return map[string]r.Element{
+		"真":    value.NewBool(true),
+		"假":    value.NewBool(false),
+		"空":    value.NewNull(),
+		"异常":   newExceptionModel(),
 		"显示":   ZnConstDisplayFunc,
 		"取随机数": ZnConstGetRandomFloat,
 		"数值":   &value.Number{},
 	}
-
-	GlobalValues = globalValues
 }
 
 func newExceptionModel() *value.ClassModel {
